@@ -426,3 +426,19 @@ func recvTypeName(e ast.Expr) string {
 	}
 	return ""
 }
+
+// isTestHelper: the function is declared in a *_testing.go file (helpers compiled into the
+// package for the use of tests).
+func (w *World) isTestHelper(f *ssa.Function) bool {
+	for f.Parent() != nil {
+		f = f.Parent()
+	}
+	p := f.Pos()
+	if o := f.Origin(); o != nil && !p.IsValid() {
+		p = o.Pos()
+	}
+	if !p.IsValid() {
+		return false
+	}
+	return strings.HasSuffix(w.Fset.Position(p).Filename, "_testing.go")
+}
